@@ -503,7 +503,38 @@ var pvTargets = []mgTarget{
 	{"pkg/openid/client/logout_frontchannel.go", "LogoutFrontchannel.MissingSidParameter", "frontchannelMissingSid"},
 }
 
+// start-up: configuration validation and the order of run() (C20)
+var suTargets = []mgTarget{
+	{"cmd/wonderwall/main.go", "run", "mainRun"},
+	{"cmd/wonderwall/main.go", "standalone", "mainStandalone"},
+	{"cmd/wonderwall/main.go", "ssoServer", "mainSsoServer"},
+	{"cmd/wonderwall/main.go", "ssoProxy", "mainSsoProxy"},
+	{"pkg/config/config.go", "Config.Validate", "configValidate"},
+	{"pkg/config/config.go", "Config.validateUpstream", "validateUpstream"},
+	{"pkg/config/cookie.go", "Cookie.Validate", "cookieCfgValidate"},
+	{"pkg/config/cookie.go", "SameSite.Validate", "sameSiteValidate"},
+	{"pkg/config/sso.go", "SSO.Validate", "ssoValidate"},
+	{"pkg/config/openid.go", "OpenID.Validate", "openidCfgValidate"},
+	{"pkg/openid/config/provider.go", "ProviderMetadata.Validate", "providerValidate"},
+	{"pkg/openid/config/provider.go", "ProviderMetadata.validateAcrValues", "providerValidateAcr"},
+	{"pkg/openid/config/provider.go", "ProviderMetadata.validateLocaleValues", "providerValidateLocale"},
+	{"pkg/openid/config/provider.go", "ProviderMetadata.validateIDTokenSigningAlg", "providerValidateAlg"},
+	{"pkg/openid/config/client.go", "NewClientConfig", "newClientConfig"},
+	{"pkg/openid/config/config.go", "NewConfig", "newOpenidConfig"},
+	{"pkg/openid/config/provider.go", "NewProviderConfig", "newProviderConfig"},
+	{"pkg/ingress/ingress.go", "ParseIngresses", "parseIngresses"},
+	{"pkg/session/store.go", "NewStore", "newStore"},
+	{"pkg/config/config.go", "Initialize", "configInitialize"},
+	{"pkg/handler/handler.go", "NewStandalone", "newStandalone"},
+	{"pkg/handler/handler_sso_proxy.go", "NewSSOProxy", "newSSOProxy"},
+	{"pkg/handler/handler_sso_server.go", "NewSSOServer", "newSSOServer"},
+	{"pkg/session/session_manager.go", "NewManager", "newManager"},
+	{"pkg/session/session_reader.go", "NewReader", "newReader"},
+}
+
 func genManager() {
+	genSkeletons("Startup.lean", "Ww.Gen.Startup", "Startup", "-- Control-flow skeletons of start-up: run(), the mode constructors and every configuration validation, statement by statement in source order.\n",
+		"import Ww.Gen.Manager\n", false, suTargets)
 	genSkeletons("Provider.lean", "Ww.Gen.Provider", "Provider", "-- Control-flow skeletons of the provider-facing code (token validation, grants, logout), statement by statement in source order.\n",
 		"import Ww.Gen.Manager\n", false, pvTargets)
 	genSkeletons("Envelope.lean", "Ww.Gen.Envelope", "Envelope", "-- Control-flow skeletons of the sealing envelope (crypter, cookie sealing, ticket, session data), statement by statement in source order.\n",
